@@ -155,6 +155,9 @@ func (ch *serverChannel) Request(ctx async.Context) (prpc.Request, status.Status
 // The message is valid until the next call to Receive/ReceiveAsync.
 func (ch *serverChannel) Receive(ctx async.Context) ([]byte, status.Status) {
 	for {
+		// Arm the wait channel before polling, see mpx channel.Receive.
+		wait := ch.ReceiveWait()
+
 		msg, ok, st := ch.ReceiveAsync(ctx)
 		switch {
 		case !st.OK():
@@ -166,7 +169,7 @@ func (ch *serverChannel) Receive(ctx async.Context) ([]byte, status.Status) {
 		select {
 		case <-ctx.Wait():
 			return nil, ctx.Status()
-		case <-ch.ReceiveWait():
+		case <-wait:
 		}
 	}
 }
